@@ -158,6 +158,10 @@ func RunC10(env *sim.Env) {
 		}
 		base := c.aloneRun(Call{Tmpl: m, Data: d})
 		nProbe, nWrite := base.Probes.Calls, base.W.Writes
+		if nProbe > 2000 || nWrite > 5000 {
+			env.Stat("counters:templates_skipped_too_large", 1)
+			continue
+		}
 		// fault points: every dynamic probe call and every write (capped, evenly thinned)
 		type fp struct{ probe, write int }
 		var fps []fp
